@@ -69,7 +69,7 @@ def generate(rng, tier, shard, nshards, mon):
     for _ in range(n):
         r = rng.random()
         depth = 0 if r < 0.04 else rng.choice([1, 1, 2, 2, 3])
-        default = rng.choice([0, 0, 7])
+        default = rng.choice([0, 0, 7, 0.5, 2.5])
         ext = [rng.randint(1, 5) for _ in range(depth)]
         free = (depth == 1 and rng.random() < 0.4) or (depth == 2 and rng.random() < 0.3)
         spec = gen.rand_tree_spec(rng, ext, rng.choice([0.3, 0.7]), rng.choice([0, 0.5, 0.8]), default) if depth else []
